@@ -650,4 +650,31 @@ Example frame_hypotheses_satisfiable :
   let '(h, e) := sub_with_spare in
   wf_slice h e /\ s_len e = 32 /\ Forall (fun s => s_arr s < length h) [e] /\
   snd (compute_asset h e) <> None.
-Proof. cbn. repeat split; try lia; try discriminate. repeat constructor. Qed.
+Proof.
+  unfold sub_with_spare. split; [|split; [|split]].
+  - unfold wf_slice. cbn [s_arr s_off s_len s_cap length arr nth]. rewrite !app_length, !repeat_length. lia.
+  - reflexivity.
+  - repeat constructor.
+  - vm_compute. discriminate.
+Qed.
+
+(* ---------- Transaction.Copy on model values ---------- *)
+From GE Require Import Model.Tx.
+
+Theorem copy_eq t : copy_tx t = t.
+Proof. destruct t. unfold copy_tx. cbn. f_equal. unfold copy_in. apply map_id. Qed.
+
+Theorem copy_norm_eq t : norm_tx (copy_tx t) = norm_tx t.
+Proof. rewrite copy_eq. reflexivity. Qed.
+
+Theorem ser_copy t : ser_full (copy_tx t) = ser_full t /\ ser_txid (copy_tx t) = ser_txid t /\ ser_wtxid (copy_tx t) = ser_wtxid t.
+Proof. rewrite copy_eq. auto. Qed.
+
+(* what Copy did before 5085a24: make([][]byte, n) followed by append => n empty items in front *)
+Definition copy_in_prefix (i : txin) : txin :=
+  mk_in (in_hash i) (in_index i) (in_seq i) (in_script i) (in_witness i) (in_pegin i)
+        (repeat [] (length (in_pegwit i)) ++ in_pegwit i) (in_iss i) (in_irp i) (in_inrp i).
+Example copy_prefix_was_not_equal :
+  let i := mk_in (repeat x00 32) 0%N 0%N [] [] true [[x01]] None [] [] in
+  copy_in_prefix i <> i /\ copy_in i = i.
+Proof. split; [discriminate|reflexivity]. Qed.
